@@ -185,7 +185,21 @@ def run_case(case, ctx):
     return {"sigs": sigs, "labels": labels}
 
 
+# a cube with more than 4096 block columns (260 x 261 traces, 3 samples): one z-slice call issues 4290 range reads
+BIG_FILE = {"kind": "spec", "family": "4x4", "rate": 16, "blockshape": [4, 4, 128], "shape": [260, 261, 3], "version": "0.2.8",
+            "values": {"kind": "gauss", "vseed": 31}, "il": [1, 1], "xl": [1, 1], "z0": 0, "dz_us": 4000, "arrays": [189, 193], "dups": []}
+
+
 def shard_main(ctx):
+    if ctx.shard in (0, 1):
+        case = {"file": BIG_FILE, "backend": "local" if ctx.shard == 0 else "blob", "preload": False, "kind": "reader",
+                "ops": [{"m": "read_zslice", "a": [1]}, {"m": "read_crossline", "a": [258]}, {"m": "read_inline", "a": [257]},
+                        {"m": "read_subvolume", "a": [250, 260, 255, 261, 0, 3]}]}
+        try:
+            ctx.evaluate(case, run_case)
+        except Violation as v:
+            ctx.failures.append({"kind": v.kind, "detail": v.detail, "case": case})
+            return
     if not ctx.explore("io3d", cases(ctx), run_case, ctx.n(400, 4000)):
         return
     ctx.explore("io2d", cases(ctx, two_d=True), run_case, ctx.n(120, 1000))
